@@ -26,7 +26,7 @@ func init() {
 		nil,
 		runC11)
 	register("C17",
-		"CONST: NumPassphraseEntropyBytes*8 >= NumPassphraseWords*aezeed.BitsPerWord and NumPassphraseEntropyBytes = ceil(that/8). CODEC-SIB: PassphraseEntropyToMnemonic and PassphraseMnemonicToEntropy read/write with the same constant object aezeed.BitsPerWord, iterate NumPassphraseWords times, use the paired tables aezeed.DefaultWordList / aezeed.ReverseWordMap, the writer is sized by NumPassphraseEntropyBytes, and NewPassphraseEntropy normalises by the round trip. SIDDIR: the boolean direction flags passed to GetSID for the receive and send streams are complementary within client and within server and mirrored between them (client.send = server.receive, client.receive = server.send); Refresh* copies both stream IDs unchanged; GetSID returns its input on one leg and XORs a non-zero constant into one byte on the other (the two directions never share a stream); ConnData.SID is the only producer of the sid used by Server/Client and hashes (SHA-512) the whole passphrase entropy or the HMAC of the ECDH output. Not decided: bit-exact inversion of the bit-stream codec (bstream semantics, word list contents), ECDH symmetry, hash collision freedom - trusted.",
+		"CONST: NumPassphraseEntropyBytes*8 >= NumPassphraseWords*aezeed.BitsPerWord and NumPassphraseEntropyBytes = ceil(that/8). CODEC-SIB: PassphraseEntropyToMnemonic and PassphraseMnemonicToEntropy read/write with the same constant object aezeed.BitsPerWord, iterate NumPassphraseWords times, use the paired tables aezeed.DefaultWordList / aezeed.ReverseWordMap, the writer is sized by NumPassphraseEntropyBytes, and NewPassphraseEntropy normalises by the round trip. SIDDIR: the boolean direction flags passed to GetSID for the receive and send streams are complementary within client and within server and mirrored between them (client.send = server.receive, client.receive = server.send); Refresh* copies both stream IDs unchanged; GetSID returns its input on one leg and XORs a non-zero constant into one byte on the other (the two directions never share a stream); ConnData.SID is the only producer of the sid used by Server/Client and hashes (SHA-512) the whole passphrase entropy or the HMAC of the ECDH output. SIDFRESH (as C11): Accept and Dial recompute that SID on every call after waiting for the previous connection, hand exactly that value to the constructor and drop the old connection when it changed - so after pairing both sides are on the key-derived streams. Not decided: bit-exact inversion of the bit-stream codec (bstream semantics, word list contents), ECDH symmetry, hash collision freedom - trusted.",
 		[]string{"aezeed.DefaultWordList has 2^BitsPerWord distinct words and ReverseWordMap is its inverse; bstream reads and writes bits MSB first"},
 		runC17)
 }
@@ -332,6 +332,14 @@ func ruleLOCKBAL(c *Checker, pkg string) {
 // C11
 
 func runC11(c *Checker) {
+	ruleAcceptDial(c)
+	ruleC11Rest(c)
+}
+
+// ruleAcceptDial: EXCL and the SIDFRESH obligations of Server.Accept / Client.Dial
+// (also run, with EXCL muted, for C17: both parties derive the rendezvous from the
+// current secret at the moment they reconnect).
+func ruleAcceptDial(c *Checker) {
 	w := c.w
 	type side struct {
 		fnName, connField, sidField, newCtor, refresh, closer string
@@ -602,6 +610,10 @@ func runC11(c *Checker) {
 			c.decide(hasFact(refresh[0].Block(), func(f Fact) bool { return isConnNonNil(f, true) }), "SIDFRESH", name+"|Refresh only with a previous connection", instrPos(refresh[0]), "under mailboxConn != nil", "Refresh runs without a previous connection")
 		}
 	}
+}
+
+func ruleC11Rest(c *Checker) {
+	w := c.w
 	// ---- FRESH: the connection handed out after a close carries no per-connection state of the closed one ----
 	for _, pr := range [][3]string{{"RefreshServerConn", "ServerConn", "NewServerConn"}, {"RefreshClientConn", "ClientConn", "NewClientConn"}} {
 		fn := w.Func("mailbox." + pr[0])
@@ -1133,6 +1145,11 @@ func runC17(c *Checker) {
 		}
 	}
 	c.floor("SIDDIR", 10)
+	// both parties take the rendezvous from the *current* secret when they reconnect
+	c.mute = map[string]bool{"EXCL": true}
+	ruleAcceptDial(c)
+	c.mute = nil
+	c.floor("SIDFRESH", 8)
 }
 
 func calleeNameIsCI(ci ssa.CallInstruction, name string) bool {
